@@ -1,5 +1,6 @@
 """C04 - inbound payments are claimable only if complete and authentic; all-or-nothing (structural part)."""
 from engine import *
+import provenance
 import re
 
 CM = 'lightning::ln::channelmanager::ChannelManager::'
@@ -391,4 +392,5 @@ RULES = [
 	('04.f', 'claim only behind the amount re-check; a refused claim fails every part', r04f),
 	('04.g', 'final-hop amount and cltv guards', r04g),
 	('04.k', 'MPP parts agree on their must-understand custom TLVs in both directions', r04k),
+	('04.p', 'same-name field transfer: structs carrying this property\'s quantities are filled from the same-named field or a reviewed alias (rules/provenance.py)', lambda F: provenance.for_property(F, 'C04', '04.p')),
 ]
